@@ -787,9 +787,16 @@ rv = .false.
                 # Promote cpp_if to interface scope if all are identical.
                 # Useful for fortran_generic.
                 iface_cpp_if = generics[0].cpp_if
+                if (iface_cpp_if is None and
+                        generics[0].ast.attrs["_constructor"]):
+                    # The generic of a class's constructors only
+                    # exists when the class does.
+                    iface_cpp_if = generics[0].parent.cpp_if
                 if iface_cpp_if is not None:
                     for node in generics:
-                        if node.cpp_if != iface_cpp_if:
+                        if node.cpp_if not in [iface_cpp_if, None] or (
+                                node.cpp_if is None and
+                                not node.ast.attrs["_constructor"]):
                             iface_cpp_if = None
                             break
 
